@@ -48,6 +48,7 @@ SCEN = {
     'PushC': lambda inv=(): sc('MC_PushC', 5, 6, inv),
     'FrameS': lambda inv=(): sc('MC_FrameS', 4, 5, inv),
     'StallS': lambda inv=(): sc('MC_StallS', 6, 7, inv),
+    'IdsC': lambda inv=(): sc('MC_IdsC', 4, 5, inv),
     'BigC': lambda inv=(): sc('MC_BigC', 4, 5, inv),
     'BigS': lambda inv=(): sc('MC_BigS', 4, 5, inv),
     'RawS': lambda inv=(): sc('MC_RawS', 3, 4, inv),
@@ -79,8 +80,8 @@ PROPS = {
             'lens': [(['e'] + STATE_FSM, S('recv', 'dlv')), (['r'], S('frame:HEADERS', 'frame:DATA'))]},
     'C08': {'scenarios': scen('LifeS LifeC MiscC MiscS PushS', ['P_C08_RoleRestrictedSends', 'RaisingCallEmitsNothing']),
             'lens': [(['r', 'o'] + STATE_FSM, S('call:hdr', 'call:data', 'call:end', 'call:push', 'call:alt', 'call:prio')), (['z.conn'], ANY)]},
-    'C09': {'scenarios': scen('LifeS LifeC SetC PushC', ['P_C09_IdsIncreaseWithParity']),
-            'lens': [(['q.nx', 'z.hiIn', 'z.hiOut', 'z.closed', 'z.streams.by'], ANY), (['r', 'o', 'e'], S('call:hdr', 'call:push', 'frame:HEADERS', 'frame:PP', 'frame:PRIO'))]},
+    'C09': {'scenarios': scen('LifeS LifeC SetC PushC IdsC', ['P_C09_IdsIncreaseWithParity']),
+            'lens': [(['q.nx', 'z.hiIn', 'z.hiOut', 'z.closed', 'z.streams.by'], ANY), (['r', 'o', 'e'], S('call:hdr', 'call:push', 'call:next', 'frame:HEADERS', 'frame:PP', 'frame:PRIO'))]},
     'C10': {'scenarios': scen('SetC SetS LifeS PushS', ['P_C10_OutboundWithinPeerLimit']),
             'lens': [(['r'], S('call:oin', 'call:oout')), (['r', 'o', 'e'], S('call:hdr', 'frame:HEADERS')), (['z.streams.st', 'z.streams', 'z.rs', 'z.ls'], ANY)]},
     'C11': {'scenarios': scen('SetC SetS', ['P_C11_PeerSettingsAckedOnce']),
@@ -207,6 +208,7 @@ FOOTPRINT = {
     'header_frame_exceeds_limit': ['*'],
     'settings_shrink_stalls_window': ['o', 'z.streams.iw', 'z.streams', 'q.rw'],
     'content_length_rule_differs': ['*'],
+    'stream_id_above_max': ['*'],
 }
 
 
